@@ -30,6 +30,9 @@ SHAPES = {
     't1-cache':    {'cw': 1, 'tw': 1, 'type': ['H']},
     't2-cache':    {'cw': 1, 'tw': 2, 'type': ['R', 'RR', 'KH']},
     't4-nocache':  {'cw': 1, 'tw': 4, 'type': ['RO', 'O']},
+    # chains of three nested suffixes whose middle element sorts after the longest one (suffix-weight merging visits x before y)
+    't2-nested':   {'cw': 1, 'tw': 2, 'type': ['HKH', 'KH', 'H']},
+    't4-nested':   {'cw': 1, 'tw': 4, 'type': ['HKH', 'KH', 'H']},
     'mix':         {'cw': 2, 'tw': 2, 'char': ['a'], 'type': ['RD'], 'dict': ['a1']},
     'c3-dictsuf':  {'cw': 3, 'tw': 1, 'char': ['ba'], 'dict': ['a', 'cba']},
     'empty':       {'cw': 2, 'tw': 2},
